@@ -110,7 +110,7 @@ def has_writer(v, depth=0):
     return False
 
 
-_G = collections.namedtuple('G', 'S SRC Lm Lq LBp MB MBp OB HP HH S0 CL NL DEF WL HW OM REL')
+_G = collections.namedtuple('G', 'S SRC Lm Lq LBp MB MBp OB HP HH S0 CL NL DEF WL HW OM REL DW RO')
 
 
 class G(_G):
@@ -128,13 +128,15 @@ class G(_G):
 
 class Machine:
     def __init__(self, F, color_only=False, merge_conflicts=True, grammar=True, io_errors=False, shd=True,
-                 step_limit=30000000):
+                 passthrough=False, step_limit=30000000):
         self.F = F
         self.color_only = color_only
         self.merge_conflicts = merge_conflicts
         self.grammar = grammar
         self.io_errors = io_errors
         self.shd = shd
+        self.passthrough = passthrough
+        self.pt_checked = 0
         self.cur_memo = ()
         self.step_limit = step_limit
         self.BODIES = F.fn_bodies
@@ -143,6 +145,12 @@ class Machine:
         self.SRCV = F.variants(SOURCE_ADT)
         self.SRCN = F.variant_names(SOURCE_ADT)
         self.NSF = {v['idx']: len(v['fields']) for v in F.adts[STATE_ADT]['variants']}
+        self.PT_STATES = {'Unknown', 'CommitMeta', 'SubmoduleLog', 'Blame', 'Grep'}
+        self.cp_adt = 'utils::process::CallingProcess'
+        self.cp_none = F.variants(self.cp_adt).get('None') if self.cp_adt in F.adts else None
+        cps = [p for p, b in F.fn_bodies.items() if b['kind'] == 'Fn' and b['mir']['arg_count'] == 0
+               and 'MutexGuard' in b['mir']['locals'][0] and 'CallingProcess' in b['mir']['locals'][0]]
+        self.cp_fn = cps[0] if len(cps) == 1 else None
         self.HH_FIELD_TYPES = [f[1] for v in F.adts[STATE_ADT]['variants'] if v['name'] == 'HunkHeader' for f in v['fields']]
         self.HUNK_STATES = {self.SV[n] for n in ('HunkHeader', 'HunkZero', 'HunkMinus', 'HunkPlus') if n in self.SV}
         self.DECO = F.variants('style::DecorationStyle') if 'style::DecorationStyle' in F.adts else {}
@@ -161,7 +169,9 @@ class Machine:
         self.samples = []
         self.linestart_seen = set()
         self.once_checked = 0
+        self.pt_claimers = set()
         self.quiet = 0
+        self.handler_true_states = collections.defaultdict(set)
         self.nl_checked = 0
         self.ingest_fn = None
         self._prepass()
@@ -495,11 +505,14 @@ class Machine:
                         g2 = g2._replace(CL=min(g2.CL + 1, 2), DEF=min(g2.DEF + 1, 3))
                     g2 = g2._replace(HH=1, HW=0)
                 else:
+                    # leaving HunkHeader: the captured header must have been (or still be) handed to an emitter before the
+                    # handler returns (checked in on_return); HH stays 1 until then
                     if g.HH == 1 and g.S == self.SV['HunkHeader']:
-                        exempt = news == self.SV.get('SubmoduleShort')
-                        if not exempt:
-                            self.violate('DROP-HDR', fn, 'state leaves HunkHeader for %s without the captured hunk header having been handed to an emitter' % self.SVN[news], g, facet='to=' + self.SVN[news])
-                    g2 = g2._replace(HH=0)
+                        g2 = g2._replace(HH=3 if news != self.SV.get('SubmoduleShort') else 0)
+                    elif g.HH == 3:
+                        pass
+                    else:
+                        g2 = g2._replace(HH=0)
                 return [g2._replace(S=news)]
             self.unmodelled['state:=TOP in ' + fn] += 1
             return [g._replace(S=i) for i in self.SVN]
@@ -737,6 +750,17 @@ class Machine:
         is_handler = (mir['arg_count'] == 1 and 'StateMachine' in mir['locals'][1] and mir['locals'][0].startswith('std::result::Result<bool'))
         if not is_handler or len(self.stack) != 1:
             return outs
+        outs2 = []
+        for (rv, g, memo) in outs:
+            if any(kv[0][0] == 'local' for kv in memo):
+                # answers of pure std predicates are kept consistent within one handler only
+                memo = tuple(kv for kv in memo if kv[0][0] != 'local')
+            if g.HH == 3:
+                self.violate('DROP-HDR', path, 'the handler leaves the HunkHeader state (for %s) and returns without the captured hunk header '
+                             'having been handed to an emitter: the hunk is shown without its header' % self.SVN[g.S], g, facet='to=' + self.SVN[g.S])
+                g = g._replace(HH=0)
+            outs2.append((rv, g, memo))
+        outs = list(dict.fromkeys(outs2))
         for (rv, g, memo) in outs:
             claimed = None
             if rv[0] == 'enum' and rv[1].endswith('Result') and rv[2] == 0 and rv[3] and rv[3][0][0] == 'bool':
@@ -749,6 +773,15 @@ class Machine:
                 if (g.CL > g_in.CL):
                     self.violate('DECLINE-CONSUME', path, 'handler returns Ok(false) after having pushed/written the line: it will be handled again', g, facet='consumed')
             elif claimed is True:
+                self.handler_true_states[path].add(self.SVN[g.S])
+                if self.passthrough:
+                    self.pt_checked += 1
+                    he_false = (path, False) in self.handler_exits or (path, None) in self.handler_exits
+                    if g.DW != 1 or not g.RO or g.OB or g.DEF or g.NL != 1:
+                        self.violate('PASS', path, 'a line that matches no marker / recogniser is not passed through as exactly one write of the raw line '
+                                     '(direct writes=%d, raw-line-only=%s, newlines=%d, deferred=%d, output_buffer %s)' % (
+                                         g.DW, bool(g.RO), g.NL, g.DEF, 'non-empty' if g.OB else 'empty'), g, facet='dw=%d,ro=%d,nl=%d' % (g.DW, g.RO, g.NL))
+                    self.pt_claimers.add(path)
                 if path in self.HLH:
                     self.once_checked += 1
                     if g.CL != 1:
@@ -974,6 +1007,9 @@ class Machine:
             return [((mk_true if val else mk_false), g, memo)]
         if key in m:
             return [((mk_true if m[key] else mk_false), g, memo)]
+        if self.passthrough and key[0] in ('regex', 'local', 'starts_with'):
+            # pass-through analysis: the line carries no marker, matches no recogniser
+            return [(mk_false, g, memo)]
         for val in (True, False):
             if not self.pred_allowed(key, val, g):
                 continue
@@ -997,6 +1033,8 @@ class Machine:
         m = dict(memo)
         if ('cls', 'line', None) not in m:
             return  # before the first line
+        if self.passthrough and not g.DW and self.SVN[g.S0 if self.color_only else g.S] in self.PT_STATES:
+            self.violate('PASS', self.consume, 'a line that matches no marker / recogniser produces no output at all', g, facet='dw=0')
         cls = m[('cls', 'line', None)]
         self.line_outcomes[(g.S0 if self.color_only else g.S, cls, g.S, g.CL, g.NL, g.DEF)] += 1
 
@@ -1011,11 +1049,13 @@ class Machine:
                                     'via': ' <- '.join(x.split('::')[-1] for x in reversed(self.stack[-6:])),
                                     'memo': [(str(k[2])[:40], v) for k, v in memo][:8]}
             return []
+        if self.passthrough and callee == self.cp_fn:
+            return [(VREF(ENUM(self.cp_adt, self.cp_none, [])), g, memo)]
         # ---- the loop's line source ----
         if 'ByteLines' in callee and callee.endswith('::next'):
             self.stats['lines_next'] += 1
             self.end_of_line(g, memo)
-            g = g._replace(S0=(g.S if self.color_only else 0), CL=0, NL=0, DEF=0, WL=0, OM=0, HW=0)
+            g = g._replace(S0=(g.S if self.color_only else 0), CL=0, NL=0, DEF=0, WL=0, OM=0, HW=0, DW=0, RO=1)
             if len(self.stack) == 1:
                 # the per-line counters have just been reset: a line-start state already explored need not be explored again
                 if g in self.linestart_seen:
@@ -1023,8 +1063,10 @@ class Machine:
                 self.linestart_seen.add(g)
             outs = [(ENUM(OPT, 0, []), g, (('eof', True),))]
             okres = ENUM(OPT, 1, [ENUM(RES, 0, [T0])])
-            for cls in self.CLASSES:
+            for cls in ([None] + [c for c in self.CLASSES if c is not None and c.strip() == ''] if self.passthrough else self.CLASSES):
                 if not self.class_allowed(cls, g):
+                    continue
+                if self.passthrough and self.SVN[g.S] not in self.PT_STATES:
                     continue
                 self.loophead[g] += 1
                 outs.append((okres, g, ((('cls', 'line', None), cls),)))
@@ -1094,6 +1136,10 @@ class Machine:
                 return [(a0, g, memo)]
             if a0[0] == 'vref' and a0[1][0] == 'ref':
                 return [(a0[1], g, memo)]
+            if a0[0] == 'vref' and a0[1][0] == 'vref' and a0[1][1][0] == 'enum':
+                return [(a0[1], g, memo)]
+            if a0[0] == 'vref' and a0[1][0] == 'enum' and callee.endswith(('::deref', '::deref_mut')):
+                return [(a0, g, memo)]
             if a0[0] == 'static' or (a0[0] == 'vref' and a0[1][0] == 'static'):
                 return [(a0, g, memo)]
             if a0[0] == 'vref' and a0[1][0] in ('enum', 'fn', 'closure') and callee.endswith(('::as_ref', '::as_mut')):
@@ -1178,7 +1224,7 @@ class Machine:
         if g2 is not g:
             return [(TOP(prov_of(TUP(av)) - {'WRITER'}), g2, memo)]
         # hand-off of the captured hunk header to an emitter
-        if g.HH == 1 and sum(1 for a in av if 'hh_payload' in prov_of(a)) >= 2 and any(a[0] == 'ref' and a[1][0] == 'SM' for a in av):
+        if g.HH in (1, 3) and sum(1 for a in av if 'hh_payload' in prov_of(a)) >= 2 and any(a[0] == 'ref' and a[1][0] == 'SM' for a in av):
             self.events['HDR_HUNK_HANDOFF'] += 1
             g = g._replace(HH=2, HW=0)
             outs = self._descend2(path, c, callee, av, g, memo)
@@ -1193,6 +1239,17 @@ class Machine:
             return self.call_fn(callee, av, g, memo)
         if callee not in self.RELEVANT:
             self.stats['skipped_irrelevant'] += 1
+            dty = c.get('dest_ty', '')
+            pv = prov_of(TUP(av))
+            if (dty == 'bool' or dty.startswith('std::option::Option<')) and pv and pv <= {'line', 'raw_line'} and not has_writer(TUP(av)) \
+                    and not any(a[0] == 'ref' and a[1][0] == 'SM' and a[1][-1] not in ('line', 'raw_line') and 'config' not in a[1] for a in av):
+                # an opaque local parser/predicate of the current line (e.g. a marker parser): it answers the same way
+                # every time it is asked about this line with the same constant arguments
+                consts = tuple(a[1] for a in av if a[0] in ('str', 'char', 'int', 'bool'))
+                key = ('local', 'line', '%s%r' % (callee_short(callee), consts))
+                if dty == 'bool':
+                    return self.predicate(key, g, memo, BOOL(True), BOOL(False))
+                return self.predicate(key, g, memo, ENUM(OPT, 1, [TOP(pv)]), ENUM(OPT, 0, []))
             outs = self.external(path, c, callee, av, g, memo, local=True)
             if self.color_only and has_writer(TUP(av)) and callee in self.BODIES:
                 # newline accounting only: walk the sink function quietly (events and ordering were decided at the boundary)
@@ -1214,7 +1271,7 @@ class Machine:
         return self.call_fn(callee, av, g, memo)
 
     def _bump_nl(self, g, n):
-        if not self.color_only:
+        if not (self.color_only or self.passthrough):
             return g
         return g._replace(NL=min(g.NL + n, 3))
 
@@ -1347,6 +1404,8 @@ class Machine:
                     self.violate('ORD-W', path, 'direct write to the output stream while earlier hunk lines are still buffered (not yet painted)', g, site, callee, facet='LB')
                 g = self._consume(g, rest)
                 g = self._bump_nl(g, self._nl_of_call(c, callee, argv))
+                if self.passthrough:
+                    g = g._replace(DW=min(g.DW + 1, 2), RO=1 if (g.RO and 'raw_line' in rest and 'line' not in rest) else 0)
             return [(ret, g, memo)]
         # appends to output buffer by any external call receiving &mut output_buffer
         if has_loc(deep, 'output_buffer') and not callee.endswith(('::new_display', '::new_debug')):
@@ -1377,7 +1436,21 @@ class Machine:
     # ------------------------------------------------------------------ driver
     def g0(self):
         return G(S=self.SV['Unknown'], SRC=self.SRCV['Unknown'], Lm=0, Lq=0, LBp=0, MB=0, MBp=0, OB=0, HP=0, HH=0,
-                 S0=self.SV['Unknown'], CL=0, NL=0, DEF=0, WL=0, HW=0, OM=0, REL='E0')
+                 S0=self.SV['Unknown'], CL=0, NL=0, DEF=0, WL=0, HW=0, OM=0, REL='E0', DW=0, RO=1)
+
+    def analyse_passthrough(self, seeds):
+        """from every given line-start state: feed lines that match no marker and no recogniser"""
+        t0 = time.time()
+        self.exits = []
+        for g in seeds:
+            if self.SVN[g.S] not in self.PT_STATES:
+                continue
+            self.pt_seeds = getattr(self, 'pt_seeds', 0) + 1
+            self.linestart_seen = set()
+            self.call_fn(self.consume, [REF(('SM',)), T0], g._replace(DW=0, RO=1), (('seed', True),))
+        self.foreign_handlers = []
+        self.wall = time.time() - t0
+        return self
 
     def analyse(self):
         t0 = time.time()
@@ -1395,6 +1468,11 @@ class Machine:
                     self.violate('EOF', self.consume, 'input ends with text still held back: LB=%d OB=%d MB=%d HP=%d' % (g.LB, g.OB, g.MB, g.HP), g, facet='LB=%d,OB=%d,MB=%d,HP=%d' % (g.LB, g.OB, g.MB, g.HP))
                 if g.HH == 1 and not self.grammar:
                     pass
+        # handlers of foreign formats (blame / grep / git-show output) are outside the color-only line-for-line contract
+        foreign = {p for p, sts in self.handler_true_states.items() if sts & {'Blame', 'Grep', 'GitShowFile'}}
+        for k in [k for k, v in self.viol.items() if v['rule'] == 'NL' and v['fn'] in foreign]:
+            del self.viol[k]
+        self.foreign_handlers = sorted(foreign)
         self.wall = time.time() - t0
         self.exits = exits
         return self
@@ -1411,7 +1489,7 @@ class Machine:
             'pred_forks': self.stats['pred_forks'], 'class_decided_predicates': self.stats['cls_pred'],
             'relevant_fns': len(self.RELEVANT), 'events': dict(self.events),
             'unmodelled': dict(self.unmodelled),
-            'exit_states': len(self.exits), 'once_checked': self.once_checked, 'nl_checked': self.nl_checked, 'hunk_line_handlers': sorted(self.HLH),
+            'exit_states': len(self.exits), 'pt_checked': self.pt_checked, 'pt_claimers': sorted(self.pt_claimers), 'once_checked': self.once_checked, 'nl_checked': self.nl_checked, 'hunk_line_handlers': sorted(self.HLH),
         }
 
 
@@ -1439,7 +1517,8 @@ def run_mode(F, mode, cache_key=None):
     cpath = None
     if cache_key:
         import hashlib
-        src = open(os.path.abspath(__file__), 'rb').read()
+        here = os.path.dirname(os.path.abspath(__file__))
+        src = b''.join(open(os.path.join(here, f), 'rb').read() for f in ('e1.py', 'facts.py'))
         hh = hashlib.sha1(src).hexdigest()[:10]
         cpath = os.path.join(extract.CACHE, 'e1-%s-%s-%s.pkl' % (cache_key, mode, hh))
         if os.path.exists(cpath):
@@ -1448,13 +1527,21 @@ def run_mode(F, mode, cache_key=None):
                     return pickle.load(fh)
             except Exception:
                 pass
-    m = Machine(F, **MODES[mode]).analyse()
+    if mode == 'P':
+        base = run_mode(F, 'N', cache_key)
+        m = Machine(F, passthrough=True, grammar=False)
+        seeds = [G(*t) for t in base['loophead_g']]
+        m.analyse_passthrough(seeds)
+        m.loophead = collections.Counter({g: 1 for g in seeds if m.SVN[g.S] in m.PT_STATES})
+    else:
+        m = Machine(F, **MODES[mode]).analyse()
     out = {
         'mode': mode,
         'summary': m.summary(),
         'violations': [dict(v, via=v['via'].most_common(6), frames=sorted(v['frames']), classes=sorted(map(str, v['classes']))) for v in m.viol.values()],
         'aborts': list(m.aborts.values()),
         'loophead': [m.gstr(g) for g in sorted(m.loophead, key=m.gstr)],
+        'loophead_g': [tuple(g) for g in sorted(m.loophead, key=m.gstr)],
         'classes': [c for c in m.CLASSES],
         'handler_exits': {('%s|%s' % k): v for k, v in m.handler_exits.items()},
         'event_sites': {k: sorted(map(str, v)) for k, v in m.event_sites.items()},
